@@ -48,7 +48,7 @@ RunOffsTie == {<<6, 0>>}
 FixedMax == {"fixed", "max"}
 \* a Min timer whose hop is less than half a second away when it is deleted / pulled in, then slot reuse
 AddOffsMinDel == {<<0, 600000000>>, <<0, 200000000>>}
-RunOffsMinDel == {<<0, 500000000>>, <<1, 0>>}
+RunOffsMinDel == {<<0, 500000000>>, <<1, 0>>, <<0, 300000000>>}
 AddOffsNear == {<<32766, 200000000>>, <<32766, 500000000>>, <<32766, 900000000>>, <<32767, 100000000>>}
 RunOffsNear == {<<0, 900000000>>, <<40000, 0>>}
 =============================================================================
